@@ -25,7 +25,10 @@ RULE = ("1-3 parameters (bool/int/float/str with every width/sign suffix: [u]int
         "(chain-of-parses) programs cut into 2-3 texts parsed with DIP(env), model and specification evaluated on every "
         "prefix; (imports) a group with assignment chains is imported locally (`{?g.*}` / `{?g.a}`) below a fresh group, then "
         "originals and copies are assigned independently: an import line counts as the typed lines it stands for (type, "
-        "width/sign, dimension, unit, CURRENT value or declaration, !constant carried over). A returned environment that cannot be read counts as 'envbroken', not as a failed parse. non-trivial = at least two modifications of one parameter or a unit conversion or an "
+        "width/sign, dimension, unit, CURRENT value or declaration, !constant carried over); (functions) a parameter with an "
+        "assignment chain is read by a registered function (handed on, or converted in place on the way) that delivers the "
+        "value of another parameter, after which both are compared. The custom unit [len] is defined differently from program "
+        "to program (other magnitude, sometimes another dimension). A returned environment that cannot be read counts as 'envbroken', not as a failed parse. non-trivial = at least two modifications of one parameter or a unit conversion or an "
         "injected error; distinct = the text")
 ASSUMPTIONS = H.ASSUMPTIONS + [
     "a numeric definition without unit is dimensionless: a later assignment with a unit is an assignment in another "
@@ -40,7 +43,10 @@ ASSUMPTIONS = H.ASSUMPTIONS + [
     "imports are local and onto fresh paths (imports onto existing nodes, remote sources and references in values are "
     "C17's subject); imported int parameters carry no unit (an int copy is written back with int()); what an import "
     "means is taken from the documentation, the Lean model does not describe it and is not asked in that stream",
-    "clause conditions that compare parameters use < or > on two scalar parameters of the same type with different exact values",
+    "functions are registered with DIP.add_function, read one parameter and use built-in units only (conversions inside a "
+    "function do not know custom units); what a function call means is C18's subject, the Lean model is not asked",
+    "clause conditions that compare parameters use < or > on two scalar parameters of the same type whose values differ "
+    "by more than 0.1% (the unit magnitudes are floats: a comparison of mathematically equal values is not judged)",
     "in a chain of parses every DIP object is kept alive: DIP names its sources by id(self), a reused id collides",
     "unit conversion itself (magnitudes, dimension test) is the subject of C04 and enters as a parameter read from the "
     "live registry; an int parameter converted into its unit is compared numerically (the code stores a float)",
@@ -60,6 +66,10 @@ GRID = {
     "bool": ["true", "false", "false"],
     "str": ["''", '""', "x", "false", "0", "'a b'", '"x # y"', "none-such", "'0.0'"],
 }
+
+
+CUSTOM_UNIT_DEFS = ["$unit len = 2.5 m", "$unit len = 4 cm", "$unit len = 0.5 km", "$unit len = 10 s", "$unit len = 3 kg"]
+CUR = {"preamble": H.UNIT_PREAMBLE}
 
 
 def lit_value(ty, lit):
@@ -222,7 +232,7 @@ def gen_program(rng):
 
 def render_program(rng, params, order, inj):
     """Returns (text, abstract lines, python expectation)."""
-    text, lines = [H.UNIT_PREAMBLE], [[0, "", ["skip"]]]
+    text, lines = [CUR["preamble"]], [[0, "", ["skip"]]]
     state = {}            # path -> dict(value, frozen)
     error = False
     features = set()
@@ -256,7 +266,7 @@ def render_program(rng, params, order, inj):
         """value given in `unit` -> the definition's unit (exact)"""
         if val is None or unit is None or p.unit is None or unit == p.unit:
             return val
-        rows = {r[0]: r for r in H.unit_rows([unit, p.unit])}
+        rows = {r[0]: r for r in H.unit_rows([unit, p.unit], CUR["preamble"])}
         if unit not in rows or p.unit not in rows or rows[unit][3] != rows[p.unit][3]:
             return "err"
         f = Fraction(int(rows[unit][1]), int(rows[unit][2])) / Fraction(int(rows[p.unit][1]), int(rows[p.unit][2]))
@@ -690,7 +700,7 @@ def gen_clause_program(rng):
             if pairs:
                 x, y = rng.choice(pairs)
                 yv = conv_exact(x.unit, y.unit, state[y.leaf]) if (x.unit and y.unit) else state[y.leaf]
-                if yv != "err" and yv != state[x.leaf]:
+                if yv != "err" and abs(yv - state[x.leaf]) > Fraction(1, 1000) * max(abs(yv), abs(state[x.leaf])):
                     op = rng.choice(["<", ">"])
                     sel = (state[x.leaf] < yv) if op == "<" else (state[x.leaf] > yv)
                     cond = '("{?%s} %s {?%s}")' % (".".join(x.path), op, ".".join(y.path))
@@ -892,6 +902,99 @@ def import_stream(ctx, n):
                           dict(replay, impl=H.jsonable(impl), spec=H.jsonable(spec)))
 
 
+def gen_function_program(rng):
+    """A parameter `a` with an assignment chain, then a parameter `r` whose value is delivered by a registered function
+    (`r float = (fn) unit`, as definition or typed re-definition) that reads `a` — handing it on, or converting it on
+    the way (`data['a'].convert('mm')`) — and afterwards `a` must still have the unit of its first occurrence and
+    its last assigned value.  Returns (text, functions, abstract lines, expected, features)."""
+    feats = set()
+    fam = rng.choice(sorted(H.LIN_UNITS))
+    pool = [u for u in H.LIN_UNITS[fam] if not u.startswith("[")]   # conversions inside a function know no custom units
+    ua, um, ur = (rng.choice(pool) for _ in range(3))
+    text, lines = [H.UNIT_PREAMBLE], [[0, "", ["skip"]]]
+    ty = rng.choice(["float", "float", "int"])
+    kw, prec, uns = H.gen_type(rng, ty)
+    grid = [q for q in GRID[ty] if q not in ("+0",)]
+    lit = rng.choice(grid)
+    va = lit_value(ty, lit)
+    text.append("a " + kw + " = " + lit + " " + ua)
+    lines.append([0, "a", ["defn", ty, prec, uns, None, ua, H.to_json_val(va)]])
+    for _ in range(rng.choice([0, 1, 2])):
+        lit = rng.choice(grid)
+        u = rng.choice(pool)
+        v = lit_value(ty, lit)
+        text.append("a = " + lit + " " + u)
+        lines.append([0, "a", ["assign", None, u, H.to_json_val(v), None, None, None]])
+        va = conv_exact(ua, u, v)
+        feats.add("reassigned-before-function")
+    kwr, precr, unsr = H.gen_type(rng, "float")
+    redefinition = rng.random() < 0.5
+    if redefinition:
+        text.append("r " + kwr + " = 1 " + ur)
+        lines.append([0, "r", ["defn", "float", precr, unsr, None, ur, H.to_json_val(1)]])
+    mode = rng.choice(["hand-on", "convert-in-place"])
+    k = rng.choice([1, 2, -3])
+    if mode == "hand-on":
+        fn = lambda data: data["a"]
+        vr = conv_exact(ur, ua, va)
+    else:
+        fn = (lambda um_, k_: (lambda data: k_ * data["a"].convert(um_).value))(um, k)
+        vr = k * conv_exact(um, ua, va)
+    feats.add("function:" + mode)
+    if ua != um or ua != ur:
+        feats.add("function-reads-parameter-in-another-unit")
+    kw2 = H.gen_type(rng, "float")
+    text.append("r " + kw2[0] + " = (fn) " + ur)
+    if redefinition:
+        lines.append([0, "r", ["assign", "float", ur, H.to_json_val(vr), kw2[1], kw2[2], None]])
+    else:
+        precr, unsr = kw2[1], kw2[2]
+        lines.append([0, "r", ["defn", "float", precr, unsr, None, ur, H.to_json_val(vr)]])
+    if rng.random() < 0.4:
+        lit = rng.choice(grid)
+        u = rng.choice(pool)
+        v = lit_value(ty, lit)
+        text.append("a = " + lit + " " + u)
+        lines.append([0, "a", ["assign", None, u, H.to_json_val(v), None, None, None]])
+        va = conv_exact(ua, u, v)
+    expected = [["a", ty, prec, uns, ua, va], ["r", "float", precr, unsr, ur, vr]]
+    return "\n".join(text), {"fn": fn}, lines, expected, feats
+
+
+def function_stream(ctx, n):
+    """real code (with the functions registered through DIP.add_function) vs the Lean specification on the effective
+    lines; what a function call means is C18's subject and not part of the Lean model, which is not asked"""
+    from scinumtools.dip import DIP
+    progs = [gen_function_program(ctx.rng) for _ in range(n)]
+    reqs = [{"lines": [[l[0], l[1], H.driver_payload(l[2])] for l in lines],
+             "units": H.unit_rows(H.units_in(lines) | {"m"}, H.UNIT_PREAMBLE)} for _, _, lines, _, _ in progs]
+    res = ctx.driver.ask_many(reqs)
+    for (text, fns, lines, expected, feats), r in zip(progs, res):
+        try:
+            p = DIP()
+            for name, fn in fns.items():
+                p.add_function(name, fn)
+            p.add_string(text)
+            impl = H.read_env(p.parse())
+        except Exception:
+            impl = "err"
+        ctx.count("stream.functions")
+        for f in feats:
+            ctx.count("feature." + f)
+        ctx.case(text, True, None)
+        replay = {"stream": "functions", "text": text, "function": sorted(feats)}
+        spec = H.decode_result(r["ok"]["spec"]) if "ok" in r else "driver-error"
+        if spec in ("driver-error", "unsupported"):
+            ctx.disagreement("functions", replay, "specification not available: %s" % (r,))
+        elif not H.res_eq_exact(expected, spec):
+            ctx.disagreement("functions:spec-vs-generator", replay,
+                             "Lean spec %s vs generator %s" % (H.short(H.jsonable(spec)), H.short(H.jsonable(expected))))
+        elif not H.res_eq(impl, spec):
+            ctx.violation(signature({"stream": "functions", "features": feats}, impl, spec) + ":function",
+                          "C14: %s | text=%r" % (H.first_diff(impl, spec), text[:300]),
+                          dict(replay, impl=H.jsonable(impl), spec=H.jsonable(spec)))
+
+
 def impl_run_staged(stage_texts):
     from scinumtools.dip import DIP
     env = None
@@ -1025,6 +1128,10 @@ def correspond(ctx):
     cases = []
     for _ in range(n):
         params, order, inj = gen_program(rng)
+        # the custom unit [len] is defined differently from program to program (another magnitude, sometimes
+        # another dimension): every parse must use the definition of ITS text
+        CUR["preamble"] = rng.choice(CUSTOM_UNIT_DEFS)
+        ctx.count("custom-unit." + CUR["preamble"].split("=")[1].strip().replace(" ", ""))
         text, lines, expected, feats = render_program(rng, params, order, inj)
         nontriv = bool(feats)
         for f in feats:
@@ -1034,13 +1141,15 @@ def correspond(ctx):
             if q.nmods:
                 ctx.count("modified.kw." + q.kw)
         ctx.count("expect." + ("err" if expected == "err" else "ok"))
-        c = H.run_case(ctx, "chain", text, lines, expected, H.units_in(lines) | {"m"}, nontriv)
+        c = H.run_case(ctx, "chain", text, lines, expected, H.units_in(lines) | {"m"}, nontriv, preamble=CUR["preamble"])
         c["features"] = feats
         cases.append(c)
     H.flush(ctx, cases, prop="C14", sig_fn=signature)
+    CUR["preamble"] = H.UNIT_PREAMBLE
     clause_stream(ctx, 1200 if thorough else 300)
     chain_of_parses_stream(ctx, 800 if thorough else 200)
     import_stream(ctx, 1000 if thorough else 250)
+    function_stream(ctx, 400 if thorough else 100)
 
 
 def replay(ctx, payload):
